@@ -36,7 +36,9 @@ fn list_files(root: &Path, dir: &Path, out: &mut Vec<PathBuf>) {
     }
 }
 
-/// the fixed read-out: every key at several snapshots, scans from both ends, len
+/// the fixed read-out: every key at several snapshots, scans from both ends, len.
+/// One segment per query, separated by `|`; a query that fails yields what it had produced
+/// so far followed by `ERR` (so that a later query is still performed and compared).
 fn readout(dir: &Path, cfg: &TreeCfg, keys: &[Vec<u8>], seqs: &[SeqNo]) -> String {
     let r = std::panic::catch_unwind(std::panic::AssertUnwindSafe(|| -> Result<String, String> {
         let mut d = Driver::new(dir, cfg.clone());
@@ -48,37 +50,48 @@ fn readout(dir: &Path, cfg: &TreeCfg, keys: &[Vec<u8>], seqs: &[SeqNo]) -> Strin
             for k in keys {
                 match t.get(k, *s) {
                     Ok(v) => {
-                        let _ = write!(out, "{}@{}={};", hex(k), s, v.map_or(".".to_string(), |v| hex(&v)));
+                        let _ = write!(out, "{}@{}={};|", hex(k), s, v.map_or(".".to_string(), |v| hex(&v)));
                     }
-                    Err(e) => return Err(format!("get:{e:?}")),
+                    Err(_) => out.push_str("ERR|"),
                 }
             }
             let mut n = 0usize;
+            let mut scan_ok = true;
             for g in t.iter(*s, None) {
                 match g.into_inner() {
                     Ok((k, v)) => {
                         let _ = write!(out, "F{}={};", hex(&k), hex(&v));
                         n += 1;
                     }
-                    Err(e) => return Err(format!("scan:{e:?}")),
+                    Err(_) => {
+                        out.push_str("ERR");
+                        scan_ok = false;
+                        break;
+                    }
                 }
             }
+            out.push('|');
             for g in t.iter(*s, None).rev() {
                 match g.into_inner() {
                     Ok((k, v)) => {
                         let _ = write!(out, "B{}={};", hex(&k), hex(&v));
                     }
-                    Err(e) => return Err(format!("rscan:{e:?}")),
+                    Err(_) => {
+                        out.push_str("ERR");
+                        break;
+                    }
                 }
             }
+            out.push('|');
             match t.len(*s, None) {
                 Ok(l) => {
-                    if l != n {
+                    if scan_ok && l != n {
                         let _ = write!(out, "LEN{l}!={n};");
                     }
                 }
-                Err(e) => return Err(format!("len:{e:?}")),
+                Err(_) => out.push_str("ERR"),
             }
+            out.push('|');
         }
         d.close();
         Ok(out)
@@ -108,6 +121,10 @@ fn readout_isolated(dir: &Path, cfg: &TreeCfg, keys: &[Vec<u8>], seqs: &[SeqNo],
             // cap the address space so that absurd allocations fail fast
             let lim = libc::rlimit { rlim_cur: 4 << 30, rlim_max: 4 << 30 };
             libc::setrlimit(libc::RLIMIT_AS, &lim);
+            // a read that never returns is neither an error nor the original answer: bound it
+            let cpu = libc::rlimit { rlim_cur: 20, rlim_max: 25 };
+            libc::setrlimit(libc::RLIMIT_CPU, &cpu);
+            libc::alarm(60);
             let r = readout(dir, cfg, keys, seqs);
             let _ = std::fs::write(tmp, r);
             libc::_exit(0);
@@ -115,10 +132,25 @@ fn readout_isolated(dir: &Path, cfg: &TreeCfg, keys: &[Vec<u8>], seqs: &[SeqNo],
         let mut status: libc::c_int = 0;
         libc::waitpid(pid, &mut status, 0);
         if libc::WIFSIGNALED(status) {
-            return format!("ABORT signal={}", libc::WTERMSIG(status));
+            let sig = libc::WTERMSIG(status);
+            if sig == libc::SIGXCPU || sig == libc::SIGALRM || sig == libc::SIGKILL {
+                return format!("HANG signal={sig}");
+            }
+            return format!("ABORT signal={sig}");
         }
     }
     std::fs::read_to_string(tmp).unwrap_or_else(|_| "ABORT no-result".to_string())
+}
+
+/// every query of the mutated read-out either equals the baseline's or failed after producing
+/// a prefix of the baseline's items
+fn segments_ok(baseline: &str, r: &str) -> bool {
+    let a: Vec<&str> = baseline.split('|').collect();
+    let b: Vec<&str> = r.split('|').collect();
+    a.len() == b.len()
+        && a.iter().zip(b.iter()).all(|(x, y)| {
+            x == y || y.strip_suffix("ERR").is_some_and(|p| x.starts_with(p) && (p.is_empty() || p.ends_with(';')))
+        })
 }
 
 fn file_kind(rel: &Path) -> &'static str {
@@ -237,22 +269,28 @@ pub fn run(seed: u64, scratch: &Path, blob: bool, exhaustive: bool, samples: u64
             total += 1;
             let class = if r == baseline {
                 "identical"
-            } else if r.starts_with("ERR") {
+            } else if r.starts_with("ERR") || segments_ok(&baseline, &r) {
                 "error"
+            } else if r.starts_with("HANG") {
+                "HANG"
             } else if r.starts_with("PANIC") || r.starts_with("ABORT") {
                 "panic"
             } else {
                 "DIFFERENT"
             };
             *counts.entry((kind.to_string(), class)).or_insert(0) += 1;
-            if class == "DIFFERENT" || class == "panic" {
+            if class == "DIFFERENT" || class == "panic" || class == "HANG" {
                 // first difference, for the replay
-                let diff = if class == "panic" {
+                let diff = if class == "panic" || class == "HANG" {
                     r.chars().take(160).collect::<String>()
                 } else {
-                    let a: Vec<&str> = baseline.split(';').collect();
-                    let b: Vec<&str> = r.split(';').collect();
-                    let i = a.iter().zip(b.iter()).position(|(x, y)| x != y).unwrap_or(a.len().min(b.len()));
+                    let a: Vec<&str> = baseline.split('|').collect();
+                    let b: Vec<&str> = r.split('|').collect();
+                    let i = a
+                        .iter()
+                        .zip(b.iter())
+                        .position(|(x, y)| !segments_ok(x, y))
+                        .unwrap_or(a.len().min(b.len()));
                     format!("baseline[{}]={} mutated={}", i, a.get(i).unwrap_or(&"<end>"), b.get(i).unwrap_or(&"<end>"))
                 };
                 let _ = writeln!(out, "MUT {} {} {} {} {} {}", rel.display(), kind, off, label, class, diff);
